@@ -183,7 +183,7 @@ fn record(ctx: &Ctx, st: &mut Stats, case: &Case, fault_kind: &str, o: &Outcome,
     st.io_events += o.stat.events;
     let h = fnv64(&[&case.grammar.bytes[..], case.spec.label().as_bytes(), &case.world.faults.iter().flat_map(|f| vec![f.event as u8, f.kind, f.arg as u8]).collect::<Vec<u8>>()[..]].concat());
     st.contents.insert(h);
-    if fault_kind != "pristine" {
+    if !fault_kind.starts_with("pristine") {
         st.nontrivial.insert(h);
     }
     if let Class::Err(m) = &o.class {
@@ -398,6 +398,54 @@ fn sampled_storage(rng: &mut Rng, pristine: &[u8], corpus: &[GrammarSrc]) -> (&'
 
 // ---- syscall faults -----------------------------------------------------
 
+/// See batch 0b in `work`.
+pub fn rule_shape_grammars() -> Vec<String> {
+    const SHAPES: &[&str] = &[
+        "Items E", "Items ',' E", "E Items", "rest=Items last=E", "E", "first=E", "EMPTY", "'none'", "E E E", "'none' E",
+        "E ',' E", "E+", "E*[Comma]", "E?",
+    ];
+    let mut out = vec![];
+    let n = SHAPES.len();
+    let mut combos: Vec<Vec<usize>> = vec![];
+    for a in 0..n {
+        for b in 0..n {
+            if a == b {
+                continue;
+            }
+            combos.push(vec![a, b]);
+            for c in 0..n {
+                if c != a && c != b {
+                    combos.push(vec![a, b, c]);
+                }
+            }
+        }
+    }
+    for combo in combos {
+        for annot in ["", "@vec\n"] {
+            for elem in ["Num", "Item"] {
+                let alts: Vec<String> = combo.iter().map(|i| SHAPES[*i].replace('E', elem).replace(&format!("{elem}MPTY"), "EMPTY")).collect();
+                let rule = alts.join(" | ");
+                let mut g = format!("S: Items;\n{annot}Items: {rule};\n");
+                if elem == "Item" {
+                    g.push_str("Item: Num | Id;\n");
+                }
+                g.push_str("terminals\nNum: /\\d+/;\n");
+                if elem == "Item" {
+                    g.push_str("Id: /[a-z]+/;\n");
+                }
+                if rule.contains("'none'") {
+                    g.push_str("KwNone: 'none';\n");
+                }
+                if rule.contains("','") || rule.contains("[Comma]") {
+                    g.push_str("Comma: ',';\n");
+                }
+                out.push(g);
+            }
+        }
+    }
+    out
+}
+
 fn legal_errnos(op: u8, first_of_path: bool) -> Vec<i32> {
     let _ = first_of_path;
     match op {
@@ -469,6 +517,31 @@ pub fn work(env: &Env, ctx: &Ctx, w: usize, nw: usize, plan: &Plan) -> Value {
         };
         let o = run_case(env, &case);
         record(ctx, &mut st, &case, "pristine-generated", &o, counter, &mut viol);
+    }
+
+    // 0b. rule-shape product (fault-free): one collection rule built from
+    //     every ordered choice of 2 or 3 alternatives out of the shapes a
+    //     user writes around the `A: A B | B` pattern, with and without
+    //     `@vec`, over a terminal or a non-terminal element, LR and GLR.
+    //     Type inference and action generation branch on exactly these
+    //     shapes (and on their order).
+    for (k, text) in rule_shape_grammars().into_iter().enumerate() {
+        for glr in [false, true] {
+            counter += 1;
+            if !mine(counter) {
+                continue;
+            }
+            let spec = if glr { Spec::glr_default() } else { Spec::lr_default() };
+            let case = Case {
+                grammar: GrammarSrc { id: format!("shape:{k}"), stem: "shape".into(), bytes: text.clone().into_bytes() },
+                damage: "none (rule-shape product, fault-free baseline)".into(),
+                spec,
+                world: World::reference(),
+                actions: None,
+            };
+            let o = run_case(env, &case);
+            record(ctx, &mut st, &case, "pristine-rule-shape", &o, counter, &mut viol);
+        }
     }
 
     // 1. enumerated storage faults on every corpus grammar <= 5 KB
